@@ -78,6 +78,7 @@ func NewCodeUtils(log backend.LogFunc) *CodeUtils {
 		importReplace: make(map[string]string),
 		features:      defaultFeatures,
 		namingStyle:   styles.NewNamingStyle("thriftgo"),
+		doInitialisms: true, // the default of ignore_initialisms is false
 		scopeCache:    make(map[*parser.Thrift]*Scope),
 		useTemplate:   defaultTemplate,
 		alternative:   templates.Alternative(),
